@@ -288,6 +288,29 @@ pub fn run(ctx: &Ctx, rep: &mut Report) {
                 }
             }
         }
+        // ... and through the command-line builder (`sudachi build`), with the lexicon split over several files
+        // that are named so that their command-line order is not their alphabetical order
+        if wi % 4 == 1 && ctx.stage == "main" {
+            match cli_build(&world, &mut rng) {
+                Ok(None) => rep.count("cli_not_available", 1),
+                Ok(Some((files, bytes))) => {
+                    rep.count("cli_builds_compared", 1);
+                    if files > 1 {
+                        rep.count("cli_builds_from_several_files", 1);
+                    }
+                    let same = bytes.len() == world.sys_bytes.len() && bytes.len() > 16 && bytes[..8] == world.sys_bytes[..8] && bytes[16..] == world.sys_bytes[16..];
+                    if !same {
+                        let at = bytes.iter().zip(world.sys_bytes.iter()).enumerate().position(|(i, (x, y))| x != y && !(8..16).contains(&i)).unwrap_or(bytes.len().min(world.sys_bytes.len()));
+                        rep.violation("cli_build_differs", "sudachi build", &format!("the dictionary written by `sudachi build` from the same rows in {} files differs from the library's output at byte {} (lengths {} / {}; creation time excluded)", files, at, bytes.len(), world.sys_bytes.len()), "", scenario(""));
+                        world_ok = false;
+                    }
+                }
+                Err(e) => {
+                    rep.violation("cli_build_differs", "sudachi build", &format!("the library compiles these inputs but `sudachi build` fails: {}", clip(&e, 300)), "", scenario(""));
+                    world_ok = false;
+                }
+            }
+        }
         if !world.users.is_empty() {
             let pool = dictgen::pos_pool();
             let plain_cfg = env::config(&env::minimal_cfg(&pool[0]), &world.res);
@@ -362,4 +385,45 @@ pub fn run(ctx: &Ctx, rep: &mut Report) {
             }
         }
     }
+}
+
+/// Compiles the world's system lexicon with the command-line tool. Ok(None): the tool is not available.
+fn cli_build(world: &World, rng: &mut Rng) -> Result<Option<(usize, Vec<u8>)>, String> {
+    let cli = std::env::var("VH_CLI").unwrap_or_default();
+    if cli.is_empty() || !std::path::Path::new(&cli).exists() {
+        return Ok(None);
+    }
+    let dir = env::ResDir::new();
+    dir.write("matrix.def", &world.matrix_text);
+    let rows: Vec<String> = world.sys.entries.iter().map(|e| world.sys.row_csv(e, None)).collect();
+    let nfiles = (1 + rng.below(3)).min(rows.len().max(1));
+    // cut points
+    let mut cuts: Vec<usize> = (0..nfiles - 1).map(|_| 1 + rng.below(rows.len().max(2) - 1)).collect();
+    cuts.sort();
+    cuts.dedup();
+    let names = ["z_first.csv", "m_second.csv", "a_third.csv"];
+    let mut files = vec![];
+    let mut start = 0;
+    for (i, end) in cuts.iter().chain(std::iter::once(&rows.len())).enumerate() {
+        let mut text = String::new();
+        for r in &rows[start..*end] {
+            text.push_str(r);
+            text.push('\n');
+        }
+        dir.write(names[i], &text);
+        files.push(dir.path.join(names[i]));
+        start = *end;
+    }
+    let out = dir.path.join("out.dic");
+    let mut cmd = std::process::Command::new(&cli);
+    cmd.arg("build").arg("-m").arg(dir.path.join("matrix.def")).arg("-o").arg(&out).arg("-d").arg("vh");
+    for f in &files {
+        cmd.arg(f);
+    }
+    let o = cmd.output().map_err(|e| format!("cannot run {}: {}", cli, e))?;
+    if !o.status.success() {
+        return Err(format!("exit status {:?}: {}", o.status.code(), String::from_utf8_lossy(&o.stderr)));
+    }
+    let bytes = std::fs::read(&out).map_err(|e| format!("no output file: {}", e))?;
+    Ok(Some((files.len(), bytes)))
 }
